@@ -97,7 +97,11 @@ def rand_quat():
     return rand_unit_quat(R)
 
 
-def rand_spec(stratum=None):
+TINY = [("1dx", 1, 2), ("1dx", 1, 3), ("2d-unit", 1, 3), ("2d-unit", 1, 1), ("2d-unit", 3, 1),
+        ("1dx", 1, 1), ("1dy", 2, 1), ("1dy", 3, 1), ("col2d", 2, 1), ("2d-unit", 2, 1)]
+
+
+def rand_spec(stratum=None, tiny=None):
     stratum = stratum or R.choice(
         ["plain"] * 6 + ["masked"] * 5 + ["1d"] * 2 + ["tiny", "three-in-data", "one-in-data", "column",
                                                       "coarse-step", "blank-name", "ci-collision", "multi-layer",
@@ -112,7 +116,7 @@ def rand_spec(stratum=None):
     if stratum == "1d":
         kind, nr, nc = "1dx", 1, R.choice([4, 5, 7, 12])
     if stratum == "tiny":
-        kind, nr, nc = R.choice([("1dx", 1, 2), ("1dx", 1, 3), ("2d-unit", 1, 3), ("2d-unit", 1, 1), ("2d-unit", 3, 1)])
+        kind, nr, nc = tiny or R.choice(TINY)
     if stratum == "column":
         kind, nr, nc = R.choice(["col2d", "1dy"]), R.choice([4, 5, 6]), 1
     if stratum == "coarse-step":
@@ -447,6 +451,8 @@ def oracle(xm, sp, kwargs, xm2, saved, loaded, exc):
         return
     if len(shape) == 2:
         steps = [("dy", xm.dy, xm2.dy, shape[0]), ("dx", xm.dx, xm2.dx, shape[1])]
+    elif len(shape) == 0:      # a single point: no step to preserve
+        steps = []
     else:
         steps = [("dx", xm.dx, xm2.dx, shape[0])] if not column else [("dy", xm.dy, xm2.dy, shape[0])]
     for nm, a, b, cnt in steps:
@@ -547,7 +553,9 @@ def oracle(xm, sp, kwargs, xm2, saved, loaded, exc):
         i, p = real[i2 - 1]
         wname = p.name if p.name != "" else f"phase{i2}"
         if p2.name != wname:
-            s = "blank" if re.search(r"[ \t]", wname) else "other"
+            # blank-run: leading / trailing / repeated blanks, which a header split at blanks cannot keep
+            s = ("blank-run" if " ".join(filter(None, re.split("[ \t]", wname))) != wname
+                 else ("blank" if re.search(r"[ \t]", wname) else "other"))
             fail(f"phase-name:{s}", f"phase name {wname!r} comes back as {p2.name!r}", sp)
         wpg = "1" if p.point_group is None else p.point_group.proper_subgroup.name
         gpg = None if p2.point_group is None else p2.point_group.name
@@ -649,7 +657,10 @@ else:
               "blank-name", "ci-collision", "multi-layer", "kw", "kw-error", "big-coords"]
     for s in forced:
         run_spec(rand_spec(s))
-    for _ in range(max(0, N - len(forced))):
+    # every tiny grid (1-3 points, single row / column / point) in every run: the strata of repaired defects
+    for t in TINY:
+        run_spec(rand_spec("tiny", tiny=t))
+    for _ in range(max(0, N - len(forced) - len(TINY))):
         run_spec(rand_spec())
 
 for f in os.listdir(TMP):
